@@ -245,6 +245,24 @@ fn flush_part(outdir: &Path, wi: u64, gen: u32, part: u32, out: &WorkerOut) {
     std::fs::rename(&tmp, outdir.join(format!("w{wi}.g{gen}.p{part}.json"))).expect("worker output");
 }
 
+/// CPU seconds (user + system) a process has used so far; 0 when it cannot be read.
+fn cpu_seconds(pid: u32) -> f64 {
+    let Ok(stat) = std::fs::read_to_string(format!("/proc/{pid}/stat")) else {
+        return 0.0;
+    };
+    // fields after the parenthesised command name: state is #3, utime #14, stime #15
+    let Some(rest) = stat.rsplit_once(')').map(|x| x.1) else {
+        return 0.0;
+    };
+    let f: Vec<&str> = rest.split_whitespace().collect();
+    let ticks = |i: usize| f.get(i).and_then(|s| s.parse::<f64>().ok()).unwrap_or(0.0);
+    (ticks(11) + ticks(12)) / 100.0
+}
+
+fn stall_cpu_limit() -> f64 {
+    std::env::var("VERIF_STALL_CPU_SECS").ok().and_then(|s| s.parse().ok()).unwrap_or(400.0)
+}
+
 fn repo_head() -> String {
     Command::new("git")
         .args(["-C", "/repo", "describe", "--always", "--dirty"])
@@ -311,13 +329,19 @@ pub fn run(fam: &Family, prop: &str, tier: &str, nw: u64) -> i32 {
     let mut shapes: BTreeSet<u64> = BTreeSet::new();
     let mut inter: BTreeSet<u64> = BTreeSet::new();
     let mut nontrivial: BTreeSet<u64> = BTreeSet::new();
-    // watchdog: a worker whose case marker does not change for this long is stuck inside the
-    // code under test (an endless loop no budget sees): it is killed and the case reported
-    let stall_limit = std::time::Duration::from_secs(
-        std::env::var("VERIF_STALL_SECS").ok().and_then(|s| s.parse().ok()).unwrap_or(240),
+    // watchdog: a worker that burns this much *CPU time* on one case is stuck inside the code
+    // under test (an endless loop no budget sees): it is killed and the case reported. CPU time,
+    // not wall-clock time: on a loaded machine a healthy case may take minutes of wall-clock time.
+    let stall_limit = stall_cpu_limit();
+    let mut last_seen: BTreeMap<u64, (String, f64, Instant)> = BTreeMap::new();
+    // … and a worker that sits on one case without using any CPU at all is blocked (a real
+    // lock taken twice on the simulation thread, a deadlock in the code under test)
+    let mut last_cpu_progress: BTreeMap<u64, (f64, Instant)> = BTreeMap::new();
+    let blocked_limit = std::time::Duration::from_secs(
+        std::env::var("VERIF_BLOCKED_SECS").ok().and_then(|s| s.parse().ok()).unwrap_or(120),
     );
-    let mut last_seen: BTreeMap<u64, (String, Instant)> = BTreeMap::new();
     let mut hung: BTreeSet<u64> = BTreeSet::new();
+    let mut deaths = 0u32;
     while !children.is_empty() {
         let mut finished: Option<usize> = None;
         for (ix, (wi, _gen, ch)) in children.iter_mut().enumerate() {
@@ -326,13 +350,20 @@ pub fn run(fam: &Family, prop: &str, tier: &str, nw: u64) -> i32 {
                 break;
             }
             let cur = std::fs::read_to_string(outdir.join(format!("w{wi}.cur"))).unwrap_or_default();
-            let e = last_seen.entry(*wi).or_insert_with(|| (cur.clone(), Instant::now()));
+            let cpu = cpu_seconds(ch.id());
+            let e = last_seen.entry(*wi).or_insert_with(|| (cur.clone(), cpu, Instant::now()));
+            let p = last_cpu_progress.entry(*wi).or_insert((cpu, Instant::now()));
+            if cpu - p.0 > 0.02 || e.0 != cur {
+                *p = (cpu, Instant::now());
+            }
+            let blocked = p.1.elapsed() > blocked_limit;
             if e.0 != cur {
-                *e = (cur, Instant::now());
-            } else if e.1.elapsed() > stall_limit && !e.0.is_empty() {
+                *e = (cur, cpu, Instant::now());
+            } else if !e.0.is_empty() && (cpu - e.1 > stall_limit || blocked) {
+                *p = (cpu, Instant::now());
                 let _ = ch.kill();
                 hung.insert(*wi);
-                *e = (String::new(), Instant::now());
+                *e = (String::new(), cpu, Instant::now());
             }
         }
         let Some(ix) = finished else {
@@ -373,7 +404,7 @@ pub fn run(fam: &Family, prop: &str, tier: &str, nw: u64) -> i32 {
                     run_seed: rs,
                     class: if was_hung { "hang".into() } else { "process-abort".into() },
                     message: if was_hung {
-                        format!("the case did not finish within {}s of wall-clock time (no budget was hit: the time is spent outside the VM and outside parallel regions)", stall_limit.as_secs())
+                        format!("the case did not finish: it either burned more than {stall_limit:.0}s of CPU time without hitting any budget, or sat blocked without using CPU for {}s (deadlock)", blocked_limit.as_secs())
                     } else {
                         format!("the process died while running this case ({status}): {tail}")
                     },
@@ -381,9 +412,18 @@ pub fn run(fam: &Family, prop: &str, tier: &str, nw: u64) -> i32 {
                 });
                 *merged.counters.entry("finding[process-abort]".into()).or_default() += 1;
                 *merged.counters.entry("cases".into()).or_default() += 1;
-                if gen < 200 {
+                deaths += 1;
+                if deaths >= 8 {
+                    // enough evidence: do not spend hours dying case after case
+                    for (_, _, c) in children.iter_mut() {
+                        let _ = c.kill();
+                        let _ = c.wait();
+                    }
+                    children.clear();
+                    println!("  note: {deaths} cases killed their worker; the rest of the run was abandoned");
+                } else if gen < 200 {
                     // carry on with the rest of this worker's slice
-                    let _ = std::fs::remove_file(outdir.join(format!("w{wi}.log")));
+                    let _ = std::fs::rename(outdir.join(format!("w{wi}.log")), outdir.join(format!("w{wi}.g{gen}.deadlog")));
                     children.push((wi, gen + 1, spawn(wi, Some((b, case + nw)), gen + 1)));
                 } else {
                     harness_errors.push(format!("worker {wi} died more than 200 times"));
@@ -609,10 +649,8 @@ pub fn replay_file(fam: &Family, path: &str) -> i32 {
                 return 2;
             }
         };
-        let limit = std::time::Duration::from_secs(
-            std::env::var("VERIF_STALL_SECS").ok().and_then(|s| s.parse().ok()).unwrap_or(240),
-        );
-        let t0 = Instant::now();
+        let limit = stall_cpu_limit();
+        let mut progress = (0.0f64, Instant::now());
         loop {
             match child.try_wait() {
                 Ok(Some(s)) => {
@@ -625,11 +663,16 @@ pub fn replay_file(fam: &Family, path: &str) -> i32 {
                     };
                 }
                 Ok(None) => {
-                    if t0.elapsed() > limit {
+                    let cpu = cpu_seconds(child.id());
+                    if cpu - progress.0 > 0.02 {
+                        progress = (cpu, Instant::now());
+                    }
+                    let blocked = progress.1.elapsed().as_secs() > std::env::var("VERIF_BLOCKED_SECS").ok().and_then(|s| s.parse().ok()).unwrap_or(120);
+                    if cpu > limit || blocked {
                         let _ = child.kill();
                         let _ = child.wait();
                         return if want == "hang" {
-                            println!("REPLAY reproduced class=hang (no result after {}s)", limit.as_secs());
+                            println!("REPLAY reproduced class=hang (no result: over the CPU limit or blocked)");
                             1
                         } else {
                             println!("REPLAY not reproduced: case hangs instead of dying");
